@@ -193,3 +193,28 @@ Proof.
   - unfold comps. apply Forall_map. cbn [fst]. exact Hr.
   - unfold comps. apply Forall_map. cbn [snd]. exact Hs.
 Qed.
+
+(* ---- one handle, several calls ------------------------------------------------------------------------- *)
+Definition is_read (op : qop) : bool := match op with QGet | QPick => true | _ => false end.
+
+Lemma q_run_app cc cols pkey ks0 tpk : forall a st b,
+  q_run cc cols pkey ks0 tpk st (a ++ b)
+  = q_run cc cols pkey ks0 tpk st a ++ q_run cc cols pkey ks0 tpk (fold_left q_step a st) b.
+Proof.
+  induction a as [|op a IH]; intros st b; [reflexivity|].
+  destruct op; cbn [app q_run fold_left q_step]; rewrite IH; reflexivity.
+Qed.
+
+Lemma q_state_ignores_reads : forall ops st,
+  fold_left q_step ops st = fold_left q_step (filter (fun op => negb (is_read op)) ops) st.
+Proof.
+  induction ops as [|op ops IH]; intros st; [reflexivity|].
+  destruct op; cbn [filter is_read negb fold_left q_step]; apply IH.
+Qed.
+
+Lemma q_get_after_bind cc cols pkey ks0 tpk st ops per n :
+  let st' := fold_left q_step ops st in
+  q_run cc cols pkey ks0 tpk st (ops ++ [QBind per n; QGet])
+  = q_run cc cols pkey ks0 tpk st ops
+    ++ [get_routing_key (q_explicit st') (q_has_binding st' && (n =? 0)) cc cols pkey ks0 tpk per n].
+Proof. cbv zeta. rewrite q_run_app. reflexivity. Qed.
